@@ -58,6 +58,42 @@ HammerInit == StateFullJ(WithDb0(InitServer({1, 2, 3, 4}),
                   (ka :> VStr(N(0), 0)) @@ (kb :> VStr(N(0), 0)) @@ (kl :> VList(<<x, y>>, 0)) @@ (kh :> VHash((f :> N(0)), 0)) @@ (ks :> VSet({x, y}, 0))))
 ASSUME PrintT(ToJson([hammer |-> HammerSpecs, pre |-> HammerInit]))
 
+(* "Big value" hammers (block-scaled, harness/scale.go): the programs below are written over values of a few
+   bytes; the engine repeats every byte `scale` times, multiplies offsets, and divides lengths and bit counts
+   again before the history is recorded, so Trace_Lin judges a run on values of 256 KiB .. 1 MiB with the very
+   same Apply.  A reader that scans a stored value outside the lock (BITCOUNT, GETRANGE, BITOP, STRLEN ...)
+   while a writer patches it is only observable on values of that size.  Arguments are block-aligned and in
+   range (the homomorphism needs that). *)
+AAAA == <<97, 97, 97, 97>>
+OOOO == <<111, 111, 111, 111>>
+Alt(c1, c2, n) == [j \in 1..n |-> IF j % 2 = 1 THEN c1 ELSE c2]
+BigHammerSpecs ==
+  << [name |-> "big-setrange-bitcount", chunk |-> 2, scale |-> 65536,
+      progs |-> [c \in {1, 2, 3} |-> IF c = 1 THEN Alt(C("SETRANGE", <<kb, N(0), OOOO>>), C("SETRANGE", <<kb, N(0), AAAA>>), 24)
+                                     ELSE Rep(C("BITCOUNT", <<kb>>), 40)]],
+     [name |-> "big-setrange-inner", chunk |-> 2, scale |-> 65536,
+      progs |-> [c \in {1, 2, 3} |-> IF c = 1 THEN Alt(C("SETRANGE", <<kb, N(1), <<111, 111>> >>), C("SETRANGE", <<kb, N(1), <<97, 97>> >>), 24)
+                                     ELSE IF c = 2 THEN Rep(C("BITCOUNT", <<kb, N(0), N(-1)>>), 40)
+                                     ELSE Rep(C("GETRANGE", <<kb, N(1), N(2)>>), 24)]],
+     [name |-> "big-set-get", chunk |-> 2, scale |-> 65536,
+      progs |-> [c \in {1, 2, 3} |-> IF c = 1 THEN Alt(C("SET", <<kb, OOOO>>), C("SET", <<kb, <<97, 97>> >>), 24)
+                                     ELSE IF c = 2 THEN Alt(C("GET", <<kb>>), C("STRLEN", <<kb>>), 32)
+                                     ELSE Rep(C("BITCOUNT", <<kb, N(0), N(1)>>), 40)]],
+     [name |-> "big-append", chunk |-> 2, scale |-> 32768,
+      progs |-> [c \in {1, 2, 3} |-> IF c = 1 THEN Rep(C("APPEND", <<kb, <<111>> >>), 16)
+                                     ELSE IF c = 2 THEN Alt(C("STRLEN", <<kb>>), C("BITCOUNT", <<kb>>), 32)
+                                     ELSE Rep(C("GETRANGE", <<kb, N(0), N(-1)>>), 16)]],
+     [name |-> "big-bitop", chunk |-> 2, scale |-> 65536,
+      progs |-> [c \in {1, 2, 3} |-> IF c = 1 THEN Alt(C("SETRANGE", <<kb, N(0), OOOO>>), C("SETRANGE", <<kb, N(0), AAAA>>), 24)
+                                     ELSE IF c = 2 THEN Alt(C("BITOP", <<W("NOT"), kd, kb>>), C("BITCOUNT", <<kd>>), 32)
+                                     ELSE Alt(C("COPY", <<kb, B("e"), W("REPLACE")>>), C("BITCOUNT", <<B("e")>>), 32)]],
+     [name |-> "big-mset-mget", chunk |-> 2, scale |-> 65536,
+      progs |-> [c \in {1, 2, 3} |-> IF c = 1 THEN Alt(C("MSET", <<kb, OOOO, kd, OOOO>>), C("MSET", <<kb, AAAA, kd, AAAA>>), 24)
+                                     ELSE IF c = 2 THEN Rep(C("MGET", <<kb, kd>>), 16)
+                                     ELSE Alt(C("GETSET", <<kb, AAAA>>), C("GETDEL", <<kd>>), 16)]] >>
+BigInit == StateFullJ(WithDb0(InitServer({1, 2, 3}), (kb :> VStr(AAAA, 0))))
+ASSUME PrintT(ToJson([bighammer |-> BigHammerSpecs, pre |-> BigInit]))
+
 (* Forced interleavings (needs the verif hook ds.unlocked): connection 1 issues one command X and is held at the
    moment it first releases the data store lock; connection 2 runs a short conflicting program Y; connection 1 is
    released.  If X does its work in one critical section it has finished by then; a command that checks first and
